@@ -28,9 +28,9 @@ type fsNode struct {
 }
 
 type fsModel struct {
-	root  *fsNode
-	tmpN  int
-	ops   []string
+	root *fsNode
+	tmpN int
+	ops  []string
 }
 
 func (m *machine) fs() *fsModel {
